@@ -106,6 +106,8 @@ type machine struct {
 	stopRequested bool
 	ctxKids map[*ctxV][]*ctxV
 	initRunning *ssa.Package
+	fsm *fsModel
+	errNotExist iface
 	concrete []NondetVal
 	cpos int
 	concreteMode bool
@@ -175,7 +177,7 @@ func (m *machine) global(g *ssa.Global) *value {
 	if g.Pkg != nil && !m.initDone[g.Pkg] {
 		m.initDone[g.Pkg] = true
 		path := g.Pkg.Pkg.Path()
-		if m.cfg.InitPkgs[path] || strings.HasPrefix(path, m.p.RepoPath) && !m.cfg.InitPkgs["-"+path] {
+		if m.cfg.InitPkgs[path] || defaultInit[path] || strings.HasPrefix(path, m.p.RepoPath) && !m.cfg.InitPkgs["-"+path] {
 			m.runInit(g.Pkg)
 		} else if initHasWork(g.Pkg) {
 			m.uninit[path]++
@@ -188,6 +190,9 @@ func (m *machine) global(g *ssa.Global) *value {
 	m.globals[g] = &cell
 	return &cell
 }
+
+// packages whose initializers are plain error/variable definitions the models rely on
+var defaultInit = map[string]bool{"internal/oserror": true, "io/fs": true, "io": true, "context": true, "path/filepath": true}
 
 var initWorkCache sync.Map
 
@@ -624,7 +629,7 @@ func callSSA(m *machine, caller *frame, callpos token.Pos, fn *ssa.Function, arg
 			}
 			path := fn.Pkg.Pkg.Path()
 			m.initDone[fn.Pkg] = true
-			if !(m.cfg.InitPkgs[path] || strings.HasPrefix(path, m.p.RepoPath) && !m.cfg.InitPkgs["-"+path]) {
+			if !(m.cfg.InitPkgs[path] || defaultInit[path] || strings.HasPrefix(path, m.p.RepoPath) && !m.cfg.InitPkgs["-"+path]) {
 				if initHasWork(fn.Pkg) {
 					m.uninit[path]++
 				}
